@@ -15,7 +15,7 @@ from .. import bus, cover, gen, ref
 LEVEL = 'exploration'
 JOBS = {'quick': 2, 'thorough': 16}
 REQUIRED_MONITORS = ('chi2_reference', 'chi2_rigid_motion', 'chi2_relabel')
-REQUIRED_CLASSES = ('place:far-from-origin', 'place:far-from-origin-aligned', 'mobile-array:same-object-overwritten', 'mobile-array:strided-or-fortran', 'restr:none', 'restr:partial', 'restr:all-fixed', 'restr:dup-fixed', 'restr:dup-mobile',
+REQUIRED_CLASSES = ('place:coincident', 'place:far-from-origin', 'place:far-from-origin-aligned', 'mobile-array:same-object-overwritten', 'mobile-array:strided-or-fortran', 'restr:none', 'restr:partial', 'restr:all-fixed', 'restr:dup-fixed', 'restr:dup-mobile',
                     'penalty:k>0', 'penalty:k=0', 'embedded:mc')
 RULE = ('calculators over (fixed size 1..40, mobile size 1..25, restraint class, placement class); each is '
         'evaluated on 4 configurations different from the construction one. Non-trivial: at least two mobile '
@@ -109,7 +109,7 @@ def cases(ctx):
 
 RESTR = ['none', 'none-empty-list', 'partial', 'all-fixed', 'dup-fixed', 'dup-mobile', 'single', 'all-fixed-dup', 'mobile-in-order',
          'mobile-in-order-all-fixed']
-PLACE = ['overlap', 'far', 'cluster', 'lattice-jitter', 'far-from-origin', 'far-from-origin-aligned']
+PLACE = ['overlap', 'far', 'cluster', 'lattice-jitter', 'far-from-origin', 'far-from-origin-aligned', 'coincident']
 
 
 def gen_restraints(rng, cls, nf, nm):
@@ -172,6 +172,12 @@ def place(rng, cls, nf, nm):
         d = rng.normal(size=3)
         off = d / np.linalg.norm(d) * 10.0 ** rng.uniform(2, 4)
         return f + off, m + off
+    if cls == 'coincident':
+        # some mobile atoms sit exactly (bit for bit) on fixed atoms: squared distances that are exactly zero
+        f, m = rng.normal(size=(nf, 3)), rng.normal(size=(nm, 3)) * 1.5
+        for j in rng.choice(nm, size=min(nm, int(rng.integers(1, 4))), replace=False):
+            m[j] = f[int(rng.integers(0, nf))]
+        return f, m
     if cls == 'cluster':
         # mobile atoms bunched together: many of them are nearest to nobody (k > 0)
         return rng.normal(size=(nf, 3)) * 3, rng.normal(size=(nm, 3)) * 0.05 + rng.normal(size=3)
@@ -234,6 +240,10 @@ def run_calc(ctx, case):
                     mobile = fixed.mean(axis=0) + rng.normal(size=(nm, 3))
             elif pcls == 'far-from-origin-aligned':
                 mobile = mobile0 + rng.normal(size=(nm, 3)) * 0.01
+            if pcls == 'coincident':
+                mobile = rng.normal(size=(nm, 3)) * 1.5
+                for j in rng.choice(nm, size=min(nm, int(rng.integers(1, 4))), replace=False):
+                    mobile[j] = fixed[int(rng.integers(0, nf))]
             if reuse:
                 buf[:] = mobile
                 val = calc(buf)
@@ -264,7 +274,8 @@ def run_calc(ctx, case):
             v2 = calc2(mobile @ R.T + t)
             ctx.monitor('chi2_rigid_motion')
             maxabs = max(float(np.abs(fixed).max()), float(np.abs(mobile).max()), float(np.abs(t).max()))
-            floor = 64 * 2.2e-16 * maxabs * (abs(val) * (nf + len(restr or []))) ** 0.5
+            floor = 64 * 2.2e-16 * maxabs * (abs(val) * (nf + len(restr or []))) ** 0.5 \
+                + (64 * 2.2e-16 * maxabs) ** 2 * (nf + len(restr or []))        # (distances that are exactly zero before the motion)
             if abs(v2 - val) > 1e-9 * max(abs(val), 1e-300) + 2 * floor and margin > 1e-6:
                 ctx.violation('chi2-not-rigid-invariant', f'{val:.12g} -> {v2:.12g} under a common rigid motion',
                               witness={'fixed': fixed, 'mobile': mobile, 'restraints': restr, 'R': R, 't': t})
